@@ -100,9 +100,56 @@ def _dotted(f):
     return None
 
 
+def _len_stable(fnode, p):
+    """the sequence bound to parameter p keeps its length and the name keeps its binding throughout fnode:
+    p is never assigned/deleted, never the receiver of a mutating method, never the base of a subscript store/delete,
+    and is passed on only as the argument of len() or directly (by name) to another function (which is then checked
+    through that function's own write summary at the call)"""
+    for n in ast.walk(fnode):
+        if isinstance(n, ast.Name) and n.id == p and not isinstance(n.ctx, ast.Load):
+            return False
+        if isinstance(n, ast.Subscript) and isinstance(n.value, ast.Name) and n.value.id == p and not isinstance(n.ctx, ast.Load):
+            return False
+        if isinstance(n, ast.Call) and isinstance(n.func, ast.Attribute) and isinstance(n.func.value, ast.Name) \
+                and n.func.value.id == p and n.func.attr in MUTATING_METHODS:
+            return False
+        if isinstance(n, ast.AugAssign) and isinstance(n.target, ast.Name) and n.target.id == p:
+            return False
+        if isinstance(n, (ast.FunctionDef, ast.Lambda)) and n is not fnode:
+            return False
+    return True
+
+
+def _runs_at_least_once(loop, minlen):
+    """`for i in range(len(P))` / `for i in range(a, len(P))` with a constant a < minlen[P], and no break/continue in
+    the body: the body is executed completely at least once"""
+    it = loop.iter
+    if not (isinstance(it, ast.Call) and _dotted(it.func) == 'range' and not it.keywords and len(it.args) in (1, 2)):
+        return False
+    lo = 0
+    if len(it.args) == 2:
+        if not (isinstance(it.args[0], ast.Constant) and isinstance(it.args[0].value, int) and it.args[0].value >= 0):
+            return False
+        lo = it.args[0].value
+    hi = it.args[-1]
+    if not (isinstance(hi, ast.Call) and _dotted(hi.func) == 'len' and len(hi.args) == 1 and isinstance(hi.args[0], ast.Name)):
+        return False
+    n = minlen.get(hi.args[0].id)
+    if n is None or n <= lo:
+        return False
+    for st in loop.body:
+        for x in ast.walk(st):
+            if isinstance(x, (ast.Break, ast.Continue)):
+                return False
+    return not loop.orelse
+
+
 class Analyzer:
-    def __init__(self, modname, qual, fnode, classname=None):
+    def __init__(self, modname, qual, fnode, classname=None, minlen=None):
         self.modname = modname; self.qual = qual; self.fn = fnode; self.classname = classname
+        # call-site precondition `len(p) >= n` for parameters bound to a list/tuple literal of n elements (only kept for
+        # parameters whose length cannot change inside this function, see _len_stable)
+        self.minlen = {p_: n_ for p_, n_ in (minlen or {}).items() if _len_stable(fnode, p_)}
         self.params = [a.arg for a in fnode.args.args] + [a.arg for a in fnode.args.kwonlyargs]
         self.sum = Summary(f'{modname}.{qual}', self.params)
         self.env = {}
@@ -144,7 +191,8 @@ class Analyzer:
         for m in (self.alias.get(n, {n}) if n is not None else ()):
             if m in self.env:
                 cur = self.env[m]
-                self.env[m] = AV(cur.d, cur.r | value.r)
+                if value.r - cur.r:
+                    self.env[m] = AV(cur.d, cur.r | value.r)
 
     # -- expressions
     def ev(self, e):
@@ -259,6 +307,12 @@ class Analyzer:
                 if m in MUTATING_METHODS:
                     self.write(recv, e.lineno, f'!.{m}()')
                     val = AV((), allr)
+                    if recv.leaf and recv.d and allr:
+                        # the receiver is a parameter annotated as a sequence of immutable values (Sequence[int] ...): what is
+                        # stored into it is immutable under that annotation, so no operand memory becomes reachable from it
+                        val = EMPTY
+                        self.sum.external.append(f'.{m}() on a parameter annotated as a sequence of immutable values '
+                                                 '[annotation trusted: the stored element is immutable]')
                     self.store_into(recv, val)
                     self.reach_more(e.func.value, val)
                     b = e.func.value
@@ -296,6 +350,7 @@ class Analyzer:
             return EMPTY
         s = self.resolve_function(d)
         if s is not None:
+            s = self.specialise(s, e)
             ctor = s.name.endswith('.__init__')
             return self.apply_summary(s, ([EMPTY] if ctor else []) + args, kws, e, ([None] if ctor else []) + argnodes, ctor=ctor)
         if d is not None and (d in self.env or d.split('.')[0] in self.env):
@@ -305,6 +360,26 @@ class Analyzer:
             return AV({(f'<result of {d}()>', True)}) | AV({(p, False) for p, c in allr})
         self.sum.external.append(f'{d}() [unknown: assumed pure, result may alias arguments]')
         return AV({(p, False) for p, c in allr})
+
+    def specialise(self, s, e):
+        """callee summary under the call-site precondition len(param) >= n, for positional arguments that are list/tuple
+        literals of n elements, or a parameter of this function for which such a bound is already known and which has not
+        been written so far"""
+        if s.name.endswith('.__init__') or not s.params or s.params[0] in ('self', 'cls'):
+            return s
+        ml = {}
+        for k, a in enumerate(e.args):
+            if k >= len(s.params) or isinstance(a, ast.Starred):
+                break
+            if isinstance(a, (ast.List, ast.Tuple)) and a.elts and not any(isinstance(x, ast.Starred) for x in a.elts):
+                ml[s.params[k]] = len(a.elts)
+            elif isinstance(a, ast.Name) and a.id in self.minlen and not self.sum.writes.get(a.id):
+                ml[s.params[k]] = self.minlen[a.id]
+        if not ml:
+            return s
+        mod, qual = s.name.split('.', 1)
+        s2 = summary_of(mod, qual, minlen=ml)
+        return s2 if s2 is not None else s
 
     def resolve_function(self, d):
         if d is None:
@@ -482,12 +557,18 @@ class Analyzer:
                 self.bind(s.target, self.ev(s.iter).deref())
             else:
                 self.ev(s.test)
-            for _ in range(2):
+            once = isinstance(s, ast.For) and bool(self.minlen) and _runs_at_least_once(s, self.minlen)
+            for rnd in range(2):
                 e0 = dict(self.env); f0 = dict(self.fields)
                 self.block(s.body)
-                for k, v in e0.items():
-                    self.env[k] = (self.env[k] | v) if k in self.env else v
-                self.fields = {k: (self.fields[k] | f0[k]) for k in self.fields if k in f0}
+                if once and rnd == 0:
+                    continue_join = False       # the state after exactly one complete iteration: no join with the entry state
+                else:
+                    continue_join = True
+                if continue_join:
+                    for k, v in e0.items():
+                        self.env[k] = (self.env[k] | v) if k in self.env else v
+                    self.fields = {k: (self.fields[k] | f0[k]) for k in self.fields if k in f0}
                 if isinstance(s, ast.For):
                     self.bind(s.target, self.ev(s.iter).deref())
             self.block(s.orelse)
@@ -532,8 +613,8 @@ ALL_MODULES = ['qnumber', 'util', 'bond_ops', 'opchain', 'optree', 'autop', 'bip
                'operation', 'krylov', 'evolution', 'minimization', 'hamiltonian']
 
 
-def summary_of(mod, qual):
-    key = (loader.repo_root(), mod, qual)
+def summary_of(mod, qual, minlen=None):
+    key = (loader.repo_root(), mod, qual) + ((tuple(sorted(minlen.items())),) if minlen else ())
     if key in _summaries:
         return _summaries[key]
     if key in _in_progress:
@@ -543,11 +624,11 @@ def summary_of(mod, qual):
         return None
     _in_progress.add(key)
     cls = qual.split('.')[0] if '.' in qual else None
-    s = Analyzer(mod, qual, m.functions[qual], cls).run()
+    s = Analyzer(mod, qual, m.functions[qual], cls, minlen).run()
     _in_progress.discard(key)
     _summaries[key] = s
     # one refinement pass for (mutually) recursive functions
-    s2 = Analyzer(mod, qual, m.functions[qual], cls).run()
+    s2 = Analyzer(mod, qual, m.functions[qual], cls, minlen).run()
     _summaries[key] = s2
     return s2
 
